@@ -472,8 +472,33 @@ def sched_kwargs(s):
 
 
 # ====================================================================== finding classes
-def known_class(case, failure):
-    """narrow input class of a recorded defect, appended to the key; None = unexplained"""
+def used_kinds(case):
+    _, t, kx, ky = case[:4]
+    names = leaf_names(t)
+    out = []
+    if names & {"X", "X2"}:
+        out.append(kx)
+    if "Y" in names:
+        out.append(ky)
+    return out
+
+
+def known_class(case, failure, message):
+    """-> full finding key of a recorded defect whose narrow input class AND failure signature this case matches, else None"""
+    api, t = case[0], case[1]
+    feats, used = features(t), used_kinds(case)
+    if "dckw" in feats and failure == "raises:TypeError" and "positional argument" in message and "DCK" in message:
+        return "raises:TypeError:dataclass-kw_only"
+    if "iter" in feats and not used and failure in ("wrong-result", "wrong-structure"):
+        return "items-lost:iterator-without-collections"
+    if api == "optimize":
+        if "sc" in used and failure == "raises:NotImplementedError":
+            return "optimize:raises:NotImplementedError:dataframe-reduction"
+        if len(used) == 2 and {"df", "ser"} & set(used):
+            if failure == "raises:TypeError" and "'<' not supported between instances of" in message:
+                return "optimize:raises:TypeError:dataframe-among-other-collections"
+            if failure == "wrong-value":
+                return "optimize:wrong-value:dataframe-among-other-collections"
     return None
 
 
@@ -543,8 +568,7 @@ def run_case(case, ctx, extra_sched=None):
                     break
     ctx.case(case, nontrivial=nontrivial, outcome=(api, t[0], kx, ky, traverse, og, s, failure))
     if failure:
-        sub = known_class(case, failure)
-        key = f"{api}:{failure}:{sub}" if sub else f"{api}:{failure}"
+        key = known_class(case, failure, reason) or f"{api}:{failure}"
         ctx.violation(key, case, f"{reason}  [template {t!r}, X={kx}, Y={ky}, traverse={traverse}, optimize_graph={og}, scheduler={s}]")
 
 
